@@ -42,8 +42,7 @@ TNext ==
       /\ e.fam
       /\ gi' = gi /\ node' = e.dst
       /\ CASE e.ev = "add" -> AddSubdomains(e.L)
-           \* (the code of today stores the data dictionary before the co-dimension check raises; both variants conform)
-           [] e.ev = "addintf" -> \E atomic \in BOOLEAN : AddInterfaceV(e.i, e.a, e.b, atomic)
+           [] e.ev = "addintf" -> AddInterface(e.i, e.a, e.b)
            [] e.ev = "remove" -> RemoveSubdomain(e.s)
            [] e.ev = "replace" -> ReplaceSubdomains(e.map)
            [] e.ev = "replaceintf" -> ReplaceInterface(e.i)
